@@ -9,6 +9,7 @@ package kfmt
 
 import (
 	"bytes"
+	"errors"
 	"fmt"
 	"io"
 	"math"
@@ -16,6 +17,7 @@ import (
 	"strings"
 	"testing"
 
+	"github.com/ProjectSerenity/firefly/kernel"
 	"pgregory.net/rapid"
 	"verifharness/vlib"
 )
@@ -41,6 +43,35 @@ type c15Case struct {
 }
 
 type c15Struct struct{ A, B int }
+
+// further dynamic types an argument can have. None of them is a built-in string, integer or
+// boolean type, so under every verb they are "wrongly typed". The first group has no sensible
+// text form and must produce the marker; for the second (c15LenientKinds: types a formatter could
+// reasonably learn to print under %s) only "never panics, never allocates" is checked.
+type (
+	c15Int      int
+	c15Str      string
+	c15Stringer struct{ s string }
+)
+
+func (s c15Stringer) String() string { return s.s }
+
+var c15OddKinds = []string{"nilptr", "func", "chan", "map", "namedint", "array", "complex", "strptr", "float32", "nilbytes",
+	"kerr", "kerrnil", "namedstr", "stringer", "error"}
+
+var c15LenientKinds = map[string]bool{"kerr": true, "kerrnil": true, "namedstr": true, "stringer": true, "error": true}
+
+var (
+	c15AString  = "pointed-to"
+	c15AnError  = errors.New("an error value")
+	c15KErr     = &kernel.Error{Module: "verif", Message: "a kernel error"}
+	c15KErrNil  *kernel.Error
+	c15NilPtr   *c15Struct
+	c15NilFunc  func()
+	c15NilChan  chan int
+	c15NilMap   map[string]int
+	c15NilBytes []byte
+)
 
 var c15IntKinds = []string{"int", "int8", "int16", "int32", "int64", "uint", "uint8", "uint16", "uint32", "uint64", "uintptr"}
 
@@ -107,6 +138,36 @@ func (a c15Arg) box() interface{} {
 		return c15Struct{int(a.I), 2}
 	case "ptr":
 		return &c15Struct{int(a.I), 3}
+	case "nilptr":
+		return c15NilPtr
+	case "func":
+		return c15NilFunc
+	case "chan":
+		return c15NilChan
+	case "map":
+		return c15NilMap
+	case "namedint":
+		return c15Int(a.I)
+	case "array":
+		return [2]byte{byte(a.I), 1}
+	case "complex":
+		return complex(float64(a.I), 1)
+	case "strptr":
+		return &c15AString
+	case "float32":
+		return float32(a.I) + 0.25
+	case "nilbytes":
+		return c15NilBytes
+	case "kerr":
+		return c15KErr
+	case "kerrnil":
+		return c15KErrNil
+	case "namedstr":
+		return c15Str("named")
+	case "stringer":
+		return c15Stringer{"stringer"}
+	case "error":
+		return c15AnError
 	}
 	panic("bad kind " + a.K)
 }
@@ -249,6 +310,10 @@ func c15Reference(c c15Case) (segs []c15Seg, format string) {
 				base := map[string]int{"d": 10, "o": 8, "x": 16}[p.Verb]
 				segs = append(segs, c15RefInt(a, base, p.Width))
 			case "s":
+				if a.K == "nilbytes" {
+					segs = append(segs, c15Seg{c15Pad("", p.Width, ' ')}) // a nil byte slice is an empty byte slice
+					continue
+				}
 				if a.K != "string" && a.K != "bytes" {
 					segs = append(segs, c15Seg{c15Wrong})
 					continue
@@ -422,7 +487,11 @@ func c15Run(c c15Case) *vlib.Failure {
 		return vlib.Failf("Fprintf(%q): output of %d bytes exceeds every bound", format, c15Rec.n)
 	}
 	out := string(c15Rec.buf[:c15Rec.n])
-	if !c15Match(out, segs) {
+	lenient := false
+	for _, a := range c.Args {
+		lenient = lenient || c15LenientKinds[a.K]
+	}
+	if !lenient && !c15Match(out, segs) {
 		return vlib.Failf("Fprintf(%q, %v): got %q, reference %q", format, c15Describe(c.Args), clip(out), clip(c15First(segs)))
 	}
 
@@ -612,6 +681,9 @@ func c15GenArg(t *rapid.T, wantVerb string) c15Arg {
 	}
 	if len(kindPool) == 0 || rapid.IntRange(0, 99).Draw(t, "mismatch") < 15 {
 		kindPool = append(append([]string{}, c15IntKinds...), "string", "bytes", "bool", "nil", "float", "struct", "ptr")
+		if rapid.IntRange(0, 2).Draw(t, "oddtype") == 0 {
+			kindPool = c15OddKinds
+		}
 	}
 	a := c15Arg{K: rapid.SampledFrom(kindPool).Draw(t, "kind")}
 	bits, signed := c15Bits(a.K)
